@@ -535,7 +535,9 @@ def finish(rep):
     if new:
         code = 1
     replay_paths = []
-    for n, v in enumerate(new):
+    if len(new) > 25:
+        print('(%d violations; the first 25 are listed, all are in the evidence file)' % len(new))
+    for n, v in enumerate(new[:25]):
         path = os.path.join(EVIDENCE_DIR, '%s.violation-%d.json' % (pid, n))
         with open(path, 'w', encoding='utf-8') as f:
             json.dump(dict(property=pid, rule=v['rule'], key=v['key'], site=v['site'], where=v['where'],
